@@ -25,6 +25,7 @@ import (
 	"strings"
 	"sync"
 	"time"
+	"unicode/utf8"
 
 	"github.com/logrange/logrange/api"
 	"github.com/logrange/logrange/pkg/lql"
@@ -173,7 +174,7 @@ func serSource(src *lql.Source, tagsText string, usesFn *bool) string {
 // pools contain blank twins (a value / name with an inner blank and the same text without it): "app 1"/"app1", "a bc"/"abc",
 // "a b"/"ab", "k 1"/"k1" — different sets that must never share a partition
 var tagKeys = []string{"a", "b", "name", "ip", "k1", "A", "k 1"}
-var tagVals = []string{"1", "2", "app1", "app2", "x", "", "abc", "ABC", "a/b", "app/1", "a/b/c", "10.0.0.1", "Z", "a b", "ab", "app 1", "a bc", "é", "x\"y", " c ", "a=b", "a,b"}
+var tagVals = []string{"1", "2", "app1", "app2", "x", "", "abc", "ABC", "a/b", "app/1", "a/b/c", "10.0.0.1", "Z", "a b", "ab", "app 1", "a bc", "é", "x\"y", " c ", "a=b", "a,b", "\xff", "a\x80b", "x,\xff", "\xc3"}
 var safeVals = []string{"1", "2", "app1", "app2", "x", "", "abc", "ABC", "a/b", "app/1", "a/b/c", "10.0.0.1", "Z", "a b", "ab", "app 1", "a bc", "a=b", "a,b", "x\"y\"z"}
 
 func genSet(r *vh.Rng, vals []string) map[string]string {
@@ -511,6 +512,15 @@ func (c identCase) denotes(i int) (map[string]string, error) {
 	return kvstring.ToMap(t)
 }
 
+func validUTF8Set(m map[string]string) bool {
+	for k, v := range m {
+		if !utf8.ValidString(k) || !utf8.ValidString(v) {
+			return false
+		}
+	}
+	return true
+}
+
 func genIdentCase(rng *vh.Rng) identCase {
 	var c identCase
 	nsets := 2 + rng.Intn(4)
@@ -576,6 +586,11 @@ func genIdentCase(rng *vh.Rng) identCase {
 		m := sets[si]
 		t := spellSet(rng, m)
 		c.SetIdx = append(c.SetIdx, si)
+		if !validUTF8Set(m) {
+			// a recorded case keeps its sets as JSON strings, which cannot hold invalid UTF-8: such texts are judged by the
+			// parser oracle (their hex text is exact), and the LQL spellings of the selectability check are not built for them
+			c.SetIdx[len(c.SetIdx)-1] = -1
+		}
 		if rng.Chance(1, 6) {
 			c.SetIdx[len(c.SetIdx)-1] = -1
 			// the canonical line itself (raw-text fast path) or a malformed text
@@ -634,6 +649,8 @@ func runIdentCase(c identCase, sec *vh.Section) {
 			impls[i] = "badtags"
 		case len(m) == 0:
 			impls[i] = "empty"
+		case strings.Contains(err.Error(), "are not valid UTF-8"):
+			impls[i] = "badutf8" // fix a7918dd: a partition whose tag line is not valid UTF-8 is refused when it would be created
 		case strings.Contains(err.Error(), "cannot be written as a line"):
 			impls[i] = "unwritable" // the write-time guard of proposed-fixes/F08r.diff (not in the tree as it is)
 		case c.fault(i):
@@ -684,8 +701,22 @@ func runIdentCase(c identCase, sec *vh.Section) {
 		if impls[i] == "unwritable" && eq {
 			continue // refused by the write-time guard, exactly where the model's guard refuses (parse(line m) ≠ m)
 		}
-		if acc != (perr == nil && len(m) > 0) {
-			f := vh.SpecFailure{Section: "identity", Kind: "acceptance", Input: c, Impl: impls[i], Spec: fmt.Sprintf("accepted=%v", perr == nil && len(m) > 0), ImplEqModel: eq,
+		// acceptance oracle: parses to a non-empty set AND (fix a7918dd) the canonical line of the set is valid UTF-8 — stated on
+		// the set: strconv.Quote escapes invalid bytes, so a value that triggers quoting never makes the line invalid
+		want := perr == nil && len(m) > 0
+		if want {
+			for k, v := range m {
+				if !utf8.ValidString(k) || (!utf8.ValidString(v) && len(v) > 0 && !strings.ContainsAny(v, "=,")) {
+					want = false
+				}
+			}
+			if !want {
+				res.Dist(sec, "non-utf8-line:"+strings.Fields(impls[i])[0])
+				// "still found when they exist": such a partition cannot exist in a fresh index, so every such text must be refused
+			}
+		}
+		if acc != want {
+			f := vh.SpecFailure{Section: "identity", Kind: "acceptance", Input: c, Impl: impls[i], Spec: fmt.Sprintf("accepted=%v", want), ImplEqModel: eq,
 				What: "a tag text is accepted as a partition identity exactly when it parses to a non-empty set (op " + strconv.Itoa(i) + ")"}
 			if eq && acc && safest == "0" {
 				// the raw-text fast path: the text is the (unreadable) line of a stored non-Safe set
